@@ -48,6 +48,8 @@ Apply(e) ==
     \/ e.op = "chans"     /\ Range(e.closed) \subseteq DOMAIN chan /\ Observe(Range(e.closed))
     \/ e.op = "changes"   /\ Changes(e.tx, e.t, e.it)
     \/ e.op = "observe"   /\ ObserveStart(e.it, e.t)
+    \/ e.op = "derive"    /\ DeriveStart(e.it, e.t, e.t2)
+    \/ e.op = "derivesync" /\ DeriveSync(e.it, e.t2)
     \/ e.op = "next"      /\ IterNext(e.it, e.src, e.cs, e.cw, e.ex, e.w)
     \/ e.op = "iterclose" /\ IterClose(e.it)
     \/ e.op = "reginit"   /\ RegInit(e.tx, e.t, e.name)
